@@ -202,10 +202,27 @@ def parseQuery (what sid : String) : Option Op := do
 
 def parseNew (toks : List String) : Option Config :=
   match toks with
-  | [role, vo, no, vi, ni, enc] =>
+  | role :: vo :: no :: vi :: ni :: enc :: _ =>
     let flag := fun (s : String) => s.endsWith "=1"
     some { client := role == "client", valOut := flag vo, normOut := flag no, valIn := flag vi, normIn := flag ni,
            enc := if enc == "enc=utf-8" then .utf8 else .none }
+  | _ => none
+
+/-- `conn.local_settings = Settings(client=..., initial_values=ls)`: the defaults with the given values replaced (same
+    position) or appended -/
+def withLocalSettings (c : Conn) (ls : List (Int × Int)) : Conn :=
+  if ls.isEmpty then c else
+  -- a fresh `Settings(client=...)` has the library defaults only (what the peer's view starts from), not the
+  -- MAX_CONCURRENT_STREAMS / MAX_HEADER_LIST_SIZE that H2Connection.__init__ adds to its own object
+  let base := Settings.ofInit (if c.cfg.client then Gen.server_remote_settings else Gen.client_remote_settings)
+  { c with localSettings := ls.foldl (fun s kv =>
+      if s.any (fun e => e.1 == kv.1) then s.map (fun e => if e.1 == kv.1 then (e.1, [some kv.2]) else e)
+      else s ++ [(kv.1, [some kv.2])]) base }
+
+def parseNewLs (toks : List String) : Option (List (Int × Int)) :=
+  match toks.drop 6 with
+  | [] => some []
+  | [t] => if t.startsWith "ls=" then parseSettings (t.drop 3).toString else none
   | _ => none
 
 abbrev World := List (Nat × Conn)
@@ -224,9 +241,9 @@ def processLine (w : World) (line : String) : World × String :=
   let annex := (parts.drop 1).foldl (fun a p => (parseAnnexPart a p).getD a) ({} : Annex)
   match main.splitOn " " with
   | "new" :: cid :: rest =>
-    match cid.toNat?, parseNew rest with
-    | some cid, some cfg => (w.set cid (Conn.init cfg), "ok")
-    | _, _ => (w, "bad-op")
+    match cid.toNat?, parseNew rest, parseNewLs rest with
+    | some cid, some cfg, some ls => (w.set cid (withLocalSettings (Conn.init cfg) ls), "ok")
+    | _, _, _ => (w, "bad-op")
   | "call" :: cid :: rest =>
     match cid.toNat?, parseCall rest with
     | some cid, some op =>
